@@ -133,7 +133,7 @@ def mk_input_graph(n, edges, src):
         # a graph object with a history: created smaller, grown by two (or
         # more) vertices in one step, an extra edge added and removed again
         from cnfgen.graphs import Graph
-        G = Graph(max(0, n - 2))
+        G = Graph(max(0, n - 2) if len(edges) % 2 else 0)     # grown by two, or from nothing
         G.update_vertex_number(n)
         if n >= 2:
             G.add_edge(1, n)
